@@ -381,7 +381,7 @@ COLSPECS = [("id", "int"), ("v", "varchar"), ("w", "int"), ("id", "varchar"), ("
 
 def gen_universe(rng: random.Random, saturated: bool = False) -> World:
     w = World()
-    nt = rng.randint(3, 6)
+    nt = rng.randint(3, 6) if rng.random() < 0.93 else rng.randint(9, 14)   # now and then a crowded universe
     tables = []
     specs = []
     for k in range(nt):
